@@ -195,6 +195,23 @@ where
             let param = ValidationErrorKind::IndexMagicByte;
             return Err(Error::validation(param, "Index magic byte is not valid").into());
         }
+        // The record headers are the last section of the file: a shorter (truncated) or longer file
+        // does not hold the index its header describes
+        let expected_size = (self.header.records_count as u64)
+            .checked_mul(self.header.record_header_size as u64)
+            .and_then(|leaves_size| leaves_size.checked_add(self.metadata.leaves_offset));
+        if expected_size != Some(self.file.size()) {
+            let param = ValidationErrorKind::IndexChecksum;
+            return Err(Error::validation(
+                param,
+                format!(
+                    "Index file size is {}, but its header describes a file of size {:?}",
+                    self.file.size(),
+                    expected_size
+                ),
+            )
+            .into());
+        }
         Ok(())
     }
 
